@@ -19,7 +19,7 @@
      (longs, datetime, duration); like; is; isEmpty, contains, containsAll, containsAny.
    Not in the fragment (see notes/C03.md): attribute access on non-path expressions, non-boolean `if` branches,
    tags, in, extension calls, set and record literals. *)
-From Cedar Require Import Typecheck ConformProofs ExprEq TypecheckProofs TypecheckProofs2 TypecheckProofs3 TypecheckProofs4 TypecheckMain TypecheckModes TypecheckSimple.
+From Cedar Require Import Typecheck ConformProofs ExprEq TypecheckProofs TypecheckProofs2 TypecheckProofs3 TypecheckProofs4 TypecheckMain TypecheckModes TypecheckSimple TypecheckSub.
 
 Theorem c03_sound_partial :
   forall m sch env q es,
@@ -64,6 +64,15 @@ Theorem c03_accepts_guarded :
   forall sch env cs e, Simple sch env cs e -> exists x c, tc Strict sch env cs e = Some (TBool x, c).
 Proof. exact simple_accepted. Qed.
 Print Assumptions c03_accepts_guarded.
+
+(* the subtype relation of types.rs is sound over ALL types (nested records, sets, entity LUBs, singleton
+   booleans), in both modes: a value of a type inhabits every well-formed (duplicate-free record keys) supertype.
+   (First half of the lub/subtype soundness needed for `if` with arbitrary branches; the upper-bound property of
+   `lub` on its structural record branch is not proved yet.) *)
+Theorem c03_subty_sound :
+  forall a m b v, wf_ty b = true -> subty m a b = true -> TypeConforms v a -> TypeConforms v b.
+Proof. exact subty_sound. Qed.
+Print Assumptions c03_subty_sound.
 
 (* the store hypothesis is what the implementation-side checker (model: Conform.conf_entity) establishes *)
 Theorem c03_store_ok_from_checker :
